@@ -59,7 +59,7 @@ def _splicable(helper: FuncInfo) -> bool:
         return False
     if getattr(node, "decorator_list", None):
         deco = [ast.unparse(d) for d in node.decorator_list]
-        if any(d not in ("staticmethod",) for d in deco):
+        if any(d not in ("staticmethod", "classmethod") for d in deco):
             return False
     return True
 
@@ -131,7 +131,8 @@ def inlined(ctx, fn: FuncInfo, depth: int = 2) -> FuncInfo:
         prefix = f"_i{counter[0]}_"
         hnode = helper.node
         params = helper.params
-        is_method_on_self = helper.cls is not None and isinstance(call.func, ast.Attribute)
+        decos = [ast.unparse(d) for d in getattr(hnode, "decorator_list", [])]
+        is_method_on_self = helper.cls is not None and isinstance(call.func, ast.Attribute) and "staticmethod" not in decos
         bound = bind_call_args(call, params, skip_self=is_method_on_self)
         mapping: Dict[str, str] = {}
         pre: List[ast.stmt] = []
